@@ -35,7 +35,7 @@ var engineAssumptions = []string{
 var checks = []Check{
 	{
 		ID: "C20", Title: "connection and request statistics are conserved", Level: "model_checking",
-		LevelText:   "every history up to depth 4/5 of connects, disconnects, successful / unsupported / invalid / multi-key requests, MOVED and ASK redirections, node down/up, backend resets, connection-limit rejections, host removal, ending either with every client closed or with Stop while connections are open, on the real Redis and TCP processors with their real listeners; counters read through the stats objects as deltas at every quiescent point; the free-running race pass of the redis and TCP processors (unmodified code, -race); Stop racing arriving requests (P1 F1 / P2 F1); a client that goes away with its request in flight; two relayed connections ending at once (plain statistic reads/writes are scheduling points, run-last policy); a pipeline cut off in the middle of a request",
+		LevelText:   "every history up to depth 4/5 of connects, disconnects, successful / unsupported / invalid / multi-key requests, MOVED and ASK redirections, node down/up, backend resets, connection-limit rejections, host removal, ending either with every client closed or with Stop while connections are open, on the real Redis and TCP processors with their real listeners; counters read through the stats objects as deltas at every quiescent point; the free-running race pass of the redis and TCP processors (unmodified code, -race); Stop racing arriving requests (P1 F1 / P2 F1); a client that goes away with its request in flight; two relayed connections ending at once (plain statistic reads/writes are scheduling points, run-last policy); a pipeline cut off in the middle of a request; upstream connection statistics conserved; a replace-hosts notice",
 		Technique:   "exhaustive enumeration of traffic/fault histories on the real processors under a controlled scheduler",
 		Assumptions: append([]string{"counters are process-wide; each execution compares against a snapshot taken at its own start", "default schedule per operation"}, engineAssumptions...),
 		Jobs: []Job{
@@ -61,7 +61,7 @@ var checks = []Check{
 	},
 	{
 		ID: "C16", Title: "discovery subscriptions track dependencies and survive stream failures", Level: "model_checking",
-		LevelText:   "stateless exploration of all schedules within bounds of the real subscription client (Run with its sender loop, the receiver it spawns, one caller, a fault thread breaking the stream) over a scripted stream factory: every Subscribe/Unsubscribe sequence of length <= 4 over three names, 17-20 distinct Subscribes against the 16-entry queues, queues shrunk to 2; stream creation and Send failing as environment choices; virtual retry timers; every history <= 5/6 of +-x, +-y, outage, back with each step run to quiescence; the dependency stream feeding both subscription clients through its hook",
+		LevelText:   "stateless exploration of all schedules within bounds of the real subscription client (Run with its sender loop, the receiver it spawns, one caller, a fault thread breaking the stream) over a scripted stream factory: every Subscribe/Unsubscribe sequence of length <= 4 over three names, 17-20 distinct Subscribes against the 16-entry queues, queues shrunk to 2; stream creation and Send failing as environment choices; virtual retry timers; every history <= 5/6 of +-x, +-y, outage, back with each step run to quiescence; the dependency stream feeding both subscription clients through its hook; stream failures with gRPC status Canceled / Unavailable",
 		Technique:   "preemption/delay-bounded stateless schedule exploration of the real goroutines with environment-fault choices",
 		Assumptions: append([]string{"scripted stream with gRPC's send/recv failure coupling (a failed Send breaks the stream, Recv then fails); real gRPC streams are outside the model", "one caller thread (the dependency stream's hook is the only caller in the product)"}, engineAssumptions...),
 		Jobs: []Job{
@@ -73,7 +73,7 @@ var checks = []Check{
 	},
 	{
 		ID: "C06", Title: "TCP: connections go only to current healthy hosts, per the balancing policy", Level: "model_checking",
-		LevelText:   "all schedules (P<=3/4, delays unbounded) of 2-3 threads picking n*k times from 1-3 hosts through the real round-robin balancer; every random outcome and every connection-count assignment for random and least-connection; every history up to depth 3/4 of add / remove (fresh host objects, as the controller builds them) / replace / health marks / connect / disconnect on the real TCP processor under the three policies with every random outcome; a connection arrival racing a membership or health change under all schedules within bounds; late health results for a stale host object, removals announced with the other type, replacement by fresh objects with the same addresses; a relayed connection to a usable member must stay open; arrival racing a replace whose list starts with a backup; a configuration update that keeps the policy (rotation must continue); a member announced again with the other type; sequences of picks of one balancer from different lists; two services' balancers interleaved",
+		LevelText:   "all schedules (P<=3/4, delays unbounded) of 2-3 threads picking n*k times from 1-3 hosts through the real round-robin balancer; every random outcome and every connection-count assignment for random and least-connection; every history up to depth 3/4 of add / remove (fresh host objects, as the controller builds them) / replace / health marks / connect / disconnect on the real TCP processor under the three policies with every random outcome; a connection arrival racing a membership or health change under all schedules within bounds; late health results for a stale host object, removals announced with the other type, replacement by fresh objects with the same addresses; a relayed connection to a usable member must stay open; arrival racing a replace whose list starts with a backup; a configuration update that keeps the policy (rotation must continue); a member announced again with the other type; sequences of picks of one balancer from different lists; two services' balancers interleaved; no host is counted with more connections than are established",
 		Technique:   "preemption-bounded schedule exploration + exhaustive history enumeration on the real TCP processor under a controlled scheduler",
 		Assumptions: engineAssumptions,
 		Jobs: []Job{
@@ -85,7 +85,7 @@ var checks = []Check{
 	},
 	{
 		ID: "C05", Title: "TCP: bytes relayed unmodified, in order, both ways, with half-close", Level: "model_checking",
-		LevelText:   "stateless exploration of all schedules within bounds of the real HandleConn/pipeConn relay on a virtual network: stream lengths around the 16 KiB copy buffer in both directions, three writer chunkings, four finishing orders (client half-closes first, backend first, both, client full close), copy buffer shrunk to 8 bytes, two connections sharing the buffer pool; read sizes as environment deviations in the thorough tier; SO_LINGER(0) modelled; free-running race pass of the TCP processor on the unmodified code; through the real listener with bounded socket buffers (back-pressure, TCP_USER_TIMEOUT modelled): streams longer than the buffers towards a receiver that starts reading up to 9 minutes late; idle timeout 0; 2-3 clients arriving together",
+		LevelText:   "stateless exploration of all schedules within bounds of the real HandleConn/pipeConn relay on a virtual network: stream lengths around the 16 KiB copy buffer in both directions, three writer chunkings, four finishing orders (client half-closes first, backend first, both, client full close), copy buffer shrunk to 8 bytes, two connections sharing the buffer pool; read sizes as environment deviations in the thorough tier; SO_LINGER(0) modelled; free-running race pass of the TCP processor on the unmodified code; through the real listener with bounded socket buffers (back-pressure, TCP_USER_TIMEOUT modelled): streams longer than the buffers towards a receiver that starts reading up to 9 minutes late; idle timeout 0; 2-3 clients arriving together; relays to a usable member are not closed because of what happens to other hosts (C06/histories)",
 		Technique:   "preemption/delay-bounded stateless schedule exploration of the real relay goroutines with input enumeration",
 		Assumptions: append([]string{"vnet models orderly close, half-close, reset, linger 0, and - where a scenario bounds the socket buffers - back-pressure and TCP_USER_TIMEOUT; other kernel behaviours (RST on close with unread data, partial writes, keep-alive) are outside the model"}, engineAssumptions...),
 		Jobs: []Job{
@@ -97,7 +97,7 @@ var checks = []Check{
 	},
 	{
 		ID: "C09", Title: "listeners: stop and drain always complete and release what they hold", Level: "model_checking",
-		LevelText:   "stateless exploration of all schedules within bounds of the real listener on a virtual network: Serve with a bind that fails 0/1/always times, a Stop / Drain / Drain+Stop caller at every point of the listener's life, 0-2 clients, connection limit 0/1; plus arrival patterns against a limit; plus stop of the real Redis and TCP processors with idle, in-flight, silent and closed backends; redis Stop while the first backend connect is still in progress or while an endpoint is removed during the hot-key collection round; tcp Stop while still connecting; controller Stop/Drain racing updates; the health monitor with its real redis / advanced-TCP / MySQL checkers against answering, wrong, late, silent, closing and refusing backends, 1-3 rounds, then Stop; a monitor with more hosts than its check concurrency; Stop in the middle of a health-check round; a TCP service whose health-check kind changes at run time; endpoint notices while a request waits for a connection or is being redirected",
+		LevelText:   "stateless exploration of all schedules within bounds of the real listener on a virtual network: Serve with a bind that fails 0/1/always times, a Stop / Drain / Drain+Stop caller at every point of the listener's life, 0-2 clients, connection limit 0/1; plus arrival patterns against a limit; plus stop of the real Redis and TCP processors with idle, in-flight, silent and closed backends; redis Stop while the first backend connect is still in progress or while an endpoint is removed during the hot-key collection round; tcp Stop while still connecting; controller Stop/Drain racing updates; the health monitor with its real redis / advanced-TCP / MySQL checkers against answering, wrong, late, silent, closing and refusing backends, 1-3 rounds, then Stop; a monitor with more hosts than its check concurrency; Stop in the middle of a health-check round; a TCP service whose health-check kind changes at run time; endpoint notices while a request waits for a connection or is being redirected; Stop after a timer-driven slot refresh",
 		Technique:   "preemption/delay-bounded stateless schedule exploration of the real goroutines under a controlled scheduler with virtual time and network",
 		Assumptions: engineAssumptions,
 		Jobs: []Job{
@@ -217,7 +217,7 @@ var checks = []Check{
 	},
 	{
 		ID: "C14", Title: "only supported commands reach backends; writes only reach masters", Level: "exploration",
-		LevelText:   "exhaustive enumeration of the command-name space through the real proxy on a 2-master x 2-replica mini cluster: the full Redis 5.0 command table (with Redis's own write flags), every name in the proxy's tables and odd names, in three letter cases, with 0-4 arguments, under the three read strategies, with the virtual clock stepped so that the time-based replica choice visits every candidate; node logs compared before/after each command at quiescence; run-time read-strategy changes (histories <= 4/5); keys with an empty hash tag; every pipeline of 2/3 out of 7 commands (read, write, unsupported, local) as RESP, inline or alternating, also one write per command while requests wait for a backend connection; CLUSTERDOWN answers; first keys at the command table's position; key-less EVAL never at a replica (random picks rotate over all hosts); a refresh answered from a partial view",
+		LevelText:   "exhaustive enumeration of the command-name space through the real proxy on a 2-master x 2-replica mini cluster: the full Redis 5.0 command table (with Redis's own write flags), every name in the proxy's tables and odd names, in three letter cases, with 0-4 arguments, under the three read strategies, with the virtual clock stepped so that the time-based replica choice visits every candidate; node logs compared before/after each command at quiescence; run-time read-strategy changes (histories <= 4/5); keys with an empty hash tag; every pipeline of 2/3 out of 7 commands (read, write, unsupported, local) as RESP, inline or alternating, also one write per command while requests wait for a backend connection; CLUSTERDOWN answers; first keys at the command table's position; key-less EVAL never at a replica (random picks rotate over all hosts); a refresh answered from a partial view; the host list delivered again between commands",
 		Technique:   "bounded-exhaustive enumeration of the command space on the real proxy stack under a controlled scheduler",
 		Rule:        "distinct = (name, letter case, argument count, strategy, clock step) combinations issued",
 		Assumptions: append([]string{"Redis 5.0 command table with write flags embedded in the harness (written from the redis-server 5.0 command table)", "mini Redis Cluster node logs"}, engineAssumptions...),
@@ -246,7 +246,7 @@ var checks = []Check{
 	},
 	{
 		ID: "C17", Title: "hot restart hand-over ordered, acknowledged, robust to bad frames", Level: "fault_enumeration",
-		LevelText:   "bounded-exhaustive enumeration over real unix sockets: every frame (12 types x payload 0..4100 x 13 declared lengths) through the real reader, full round trips through the real sender, every request sequence up to length 4/5 through the real Restarter with a scripted instance, and a first child dropped at every point (after k requests, mid-header, after a malformed frame) followed by a second child; every type byte 0-255 that is not a request; a child gone before its reply can be written; hand-over steps that take 1.3 s / 3.5 s; a child that sends its next request while the step before is still running; a received frame keeps its content while the next is read",
+		LevelText:   "bounded-exhaustive enumeration over real unix sockets: every frame (12 types x payload 0..4100 x 13 declared lengths) through the real reader, full round trips through the real sender, every request sequence up to length 4/5 through the real Restarter with a scripted instance, and a first child dropped at every point (after k requests, mid-header, after a malformed frame) followed by a second child; every type byte 0-255 that is not a request; a child gone before its reply can be written; hand-over steps that take 1.3 s / 3.5 s; a child that sends its next request while the step before is still running; a received frame keeps its content while the next is read; the drain step of a listener that is not bound yet (C09/listener)",
 		Technique:   "bounded-exhaustive frame enumeration + fault-point enumeration over request histories on the real Restarter",
 		Rule:        "each evaluation is a distinct frame or a distinct (request sequence, drop point) history",
 		Assumptions: []string{"Go compiler and runtime", "kernel unix stream sockets (abstract namespace)", "the protocol is request/reply, so outcomes do not depend on goroutine timing; a 30 s read deadline only detects a hung hand-over"},
@@ -281,7 +281,7 @@ var checks = []Check{
 	},
 	{
 		ID: "C12", Title: "key-to-slot mapping equals the Redis Cluster specification", Level: "exploration",
-		LevelText:   "bounded-exhaustive input enumeration through the real routing function: all keys of length 0-3 (every CRC state x every next byte: the induction step for all lengths), two free positions in keys up to 64 bytes, every brace placement over a 4-letter alphabet up to length 9/11, against a bit-by-bit CRC16/XMODEM and the specification's hash-tag rule; slots moved one at a time with redirected GET/SET/EVAL/MGET (a redirection teaches the proxy only about the redirected key's slot); every forwarded command of the command table arrives at the owner of its first key; RESP/inline pipelines whose queued requests must keep their keys (C14/pipelines)",
+		LevelText:   "bounded-exhaustive input enumeration through the real routing function: all keys of length 0-3 (every CRC state x every next byte: the induction step for all lengths), two free positions in keys up to 64 bytes, every brace placement over a 4-letter alphabet up to length 9/11, against a bit-by-bit CRC16/XMODEM and the specification's hash-tag rule; slots moved one at a time with redirected GET/SET/EVAL/MGET (a redirection teaches the proxy only about the redirected key's slot); every forwarded command of the command table arrives at the owner of its first key; RESP/inline pipelines whose queued requests must keep their keys (C14/pipelines); an owner that refuses a command once with -CLUSTERDOWN",
 		Technique:   "bounded-exhaustive input enumeration (complete by induction over the CRC state)",
 		Rule:        "each evaluation is a distinct key; all are counted (the 2^24 three-byte keys cover every CRC state x next byte)",
 		Assumptions: []string{"Go compiler and runtime", "reference CRC16/XMODEM and hash-tag rule written from the Redis Cluster specification", "slot read through upstream.chooseHost over an identity slot table"},
